@@ -211,6 +211,21 @@ func (m *Model) Do(op Op) {
 }
 
 func (m *Model) clean(t Target) {
+	if t == TXA || t == TXB {
+		// the two methods belong to one variable: the variable is the target builders compete for
+		own := map[int]bool{}
+		for _, b := range append(m.Owners(TXA), m.Owners(TXB)...) {
+			own[b] = true
+		}
+		if len(own) > 1 {
+			// two builders have configured the variable at the same time: the statements do not order them
+			m.Dirty[TXA], m.Dirty[TXB] = true, true
+		}
+		if len(own) == 0 {
+			m.Dirty[TXA], m.Dirty[TXB] = false, false
+		}
+		return
+	}
 	if len(m.Owners(t)) == 0 {
 		m.Dirty[t] = false
 	}
@@ -222,6 +237,9 @@ func (m *Model) Judged(t Target) bool {
 	// 'method not implements' panic - see Expect; after a Cancel of the sibling it is Dirty)
 	if (t == TXA || t == TXB) && m.Dirty[map[Target]Target{TXA: TXB, TXB: TXA}[t]] && len(m.Owners(t)) == 0 {
 		return false
+	}
+	if (t == TXA || t == TXB) && m.Dirty[t] {
+		return false // the variable has been configured by two builders at once, or a sibling was cancelled
 	}
 	if m.JustRestored[t] {
 		return true
